@@ -251,6 +251,17 @@ func writeTree(root string, files []c17file, r *rand.Rand, order []int, corrupt 
 	return nil
 }
 
+// linkify replaces file i of the tree by a symbolic link to a file of another name kept beside the tree's root directory
+// entries (a definition file deployed as a link into a release directory): what the link points to is the file's content
+func linkify(root string, files []c17file, i int) error {
+	full := filepath.Join(root, files[i].rel)
+	target := filepath.Join(root, fmt.Sprintf("deployed-%d.src", i))
+	if err := os.Rename(full, target); err != nil {
+		return err
+	}
+	return os.Symlink(target, full)
+}
+
 func c17LoadCase(c *CaseCtx) *CaseResult {
 	if c.Idx < tierN(c.Tier, 2, 16) {
 		// "no edit is ever ignored by reload": the real reload path of the binary, driven with SIGUSR1
@@ -313,9 +324,16 @@ func c17LoadCase(c *CaseCtx) *CaseResult {
 			res.Inconclusive = err.Error()
 			return res
 		}
+		linked := (c.Idx/3)%4 == 1
+		if linked {
+			if err := linkify(root, files, r.Intn(nFiles)); err != nil {
+				res.Inconclusive = err.Error()
+				return res
+			}
+		}
 		got, err := definition.LoadRecursively(pattern)
 		res.Evaluations++
-		res.Situations = append(res.Situations, fmt.Sprintf("valid files=%d large=%v", min(nFiles, 4), total1300(files)))
+		res.Situations = append(res.Situations, fmt.Sprintf("valid files=%d large=%v one file is a symbolic link=%v", min(nFiles, 4), total1300(files), linked))
 		if err != nil {
 			find("C17:valid-definitions-rejected", "a valid definition set does not load: %v", err)
 			break
@@ -540,9 +558,17 @@ func c17LoadCase(c *CaseCtx) *CaseResult {
 		if kind == "unparsable yaml" {
 			_ = os.WriteFile(filepath.Join(root, files[target].rel), []byte("pipelines:\n  x:\n    tasks: [unclosed\n   bad indent: {"), 0o644)
 		}
+		linked := (c.Idx/3/len(kinds))%3 == 1
+		if linked {
+			// the file with the broken constraint (for duplicates: one of the two files) is a symbolic link
+			if err := linkify(root, files, target); err != nil {
+				res.Inconclusive = err.Error()
+				return res
+			}
+		}
 		got, err := definition.LoadRecursively(pattern)
 		res.Evaluations++
-		res.Situations = append(res.Situations, "corruption: "+kind)
+		res.Situations = append(res.Situations, fmt.Sprintf("corruption: %s (file is a symbolic link: %v)", kind, linked))
 		if err == nil {
 			extra := ""
 			if got != nil {
@@ -808,7 +834,7 @@ func mutateAll(r *rand.Rand, base definition.PipelinesDef) ([]c17mut, string) {
 func init() {
 	register(&Check{
 		ID: "C17", Level: "exploration",
-		Rule:        "three case kinds over generated definition sets (1-4 files pipelines.yml / pipelines.yaml in nested directories incl. non-ASCII names, 1-3 pipelines each over ALL fields, emitted through yaml.v2 from a generic tree: strategy as string, durations as strings, zero values sometimes explicit sometimes omitted): (a) valid set: LoadRecursively must succeed, satisfy an independent re-statement of every listed constraint, equal the generating definitions after defaults (SourcePath = file), and give the same result when the same files are created in another order; (b) one constraint broken in one place (19 corruption kinds incl. integer queue strategies, blank and null dependencies, duplicate name in a second file (different and verbatim content) and unparsable YAML): load must fail; (c) Equals: reflexive on a deep copy, symmetric, and false for every single-field edit produced by a REFLECTION-driven mutator over PipelinesDef -> PipelineDef -> TaskDef (int, *int incl. nil<->0, Duration, bool, string, []string append/drop/edit/swap, map[string]string add key with empty value / rename key whose value is empty / change value / remove key, map of structs add / remove / rename entry); a field of a kind the mutator cannot perturb makes the run inconclusive (exit 2), so a new field cannot be silently skipped. A situation is the corruption kind resp. (field, operator)",
+		Rule:        "three case kinds over generated definition sets (1-4 files pipelines.yml / pipelines.yaml in nested directories incl. non-ASCII names, 1-3 pipelines each over ALL fields, emitted through yaml.v2 from a generic tree; in a quarter of the valid sets and a third of the corrupted ones one file is a symbolic link to a file of another name: strategy as string, durations as strings, zero values sometimes explicit sometimes omitted): (a) valid set: LoadRecursively must succeed, satisfy an independent re-statement of every listed constraint, equal the generating definitions after defaults (SourcePath = file), and give the same result when the same files are created in another order; (b) one constraint broken in one place (19 corruption kinds incl. integer queue strategies, blank and null dependencies, duplicate name in a second file (different and verbatim content) and unparsable YAML): load must fail; (c) Equals: reflexive on a deep copy, symmetric, and false for every single-field edit produced by a REFLECTION-driven mutator over PipelinesDef -> PipelineDef -> TaskDef (int, *int incl. nil<->0, Duration, bool, string, []string append/drop/edit/swap, map[string]string add key with empty value / rename key whose value is empty / change value / remove key, map of structs add / remove / rename entry); a field of a kind the mutator cannot perturb makes the run inconclusive (exit 2), so a new field cannot be silently skipped. A situation is the corruption kind resp. (field, operator)",
 		Assumptions: []string{"duplicate keys inside one YAML file are merged by yaml.v2 (last wins) and are not generated"},
 		Cases:       func(t string) int { return tierN(t, 900, 24000) },
 		RunCase:     c17LoadCase,
